@@ -1,6 +1,7 @@
 /* C04 native driver: the real HydroDensitySubGrid::update_conserved_variables on a one-cell subgrid (private members
  * reached with -fno-access-control): the positivity safeguard only intervenes below zero, pending increments are
  * consumed, results are never negative. */
+#include "HLLCRiemannSolver.hpp"
 #include "HydroBoundary.hpp"
 #include "HydroDensitySubGrid.hpp"
 #include "cm_replay.hpp"
@@ -88,9 +89,32 @@ static int reflective_scenarios(void) {
   return bad;
 }
 
+/* reflecting wall, solver side: mirror-image states exchange neither mass nor energy */
+static int wall_flux_scenarios(void) {
+  int bad = 0;
+  const double g = 5. / 3.;
+  HLLCRiemannSolver s(g);
+  for (double v : {0.3, 0.05, -0.2, 0.8}) {
+    double m = 0., E = 0.;
+    CoordinateVector<> p, n(1., 0., 0.);
+    s.solve_for_flux(1., CoordinateVector<>(v, 0.3, 0.), 1., 1., CoordinateVector<>(-v, 0.3, 0.), 1., m, p, E, n);
+    const double a = std::sqrt(g);
+    if (std::abs(m) > 1.e-12 * a || std::abs(E) > 1.e-12 * (1. + v * v) * a) {
+      std::printf("REPRODUCED (native boundary search): real HLLCRiemannSolver: a cell state rho=1, P=1, v=%g and its mirror image (the ghost of a reflecting wall) exchange mass flux %g and ENERGY flux %g: the wall leaks energy\n", v, m, E);
+      bad = 1;
+    }
+  }
+  return bad;
+}
+
 static int replay(const char *path) {
   CMInputs in;
   if (!in.load(path)) return 2;
+  if (in.job.find("hllc") != std::string::npos) {
+    int b = wall_flux_scenarios();
+    if (!b) std::printf("NOT-REPRODUCED\n");
+    return b;
+  }
   if (in.job.find("reflective") != std::string::npos) {
     int b = reflective_scenarios();
     if (!b) std::printf("NOT-REPRODUCED\n");
